@@ -54,6 +54,13 @@ def incremental_records(rnd, first_id, selfref=False):
         t["fields"].insert(pos, A.field("next", dict(A.t_ptr(A.t_void()), selfname=t["name"])))
     consts = dict(g.consts)
     defs = A.render(t, consts)
+    if selfref and rnd.random() < 0.5:
+        # the C idiom: typedef struct tag { ...; struct tag *next; } name;   (the tag is known while the fields are parsed)
+        head = f"struct {t['name']} {{"
+        i = defs.rindex(head)
+        body = defs[i:].replace(f" {t['name']} *next;", f" struct {t['name']} *next;")
+        assert body.rstrip().endswith("};")
+        defs = defs[:i] + "typedef " + body.rstrip()[:-1] + f" {t['name']}_t;"
     compiled = rnd.random() < 0.5
     out = []
     scn = {"type": t, "mode": mode, "consts": consts, "defs": defs}
